@@ -440,6 +440,11 @@ func c05Scenarios(thorough bool) []c05Scn {
 }
 
 func c05Scenario(sc c05Scn) *vs.Scenario {
+	if sc.Ticks == nil {
+		// ranking delays (250 ms, relay 500 ms) can only fire while environment threads are still pending if
+		// virtual time is allowed to pass as an explicit (deviation-costing) alternative
+		sc.Ticks = []time.Duration{501 * time.Millisecond}
+	}
 	return &vs.Scenario{Name: sc.Name, Body: c05Body(sc), LeakIsViolation: true, LeakKey: "goroutine-left-behind",
 		Opt: vs.Options{Horizon: 70 * time.Second, IdleStep: 97 * time.Millisecond, MaxSteps: 20000, Ticks: sc.Ticks}}
 }
